@@ -235,15 +235,37 @@ def strategy(tier):
                      bad_cases(), trad_cases(), iso_cases())
 
 
+def fixed_bad():
+    """the malformed strings that do not depend on random choices (or only on two small numbers)"""
+    for s in ['', ' ', '   ', '\t', '\n']:
+        yield {'k': 'bad', 's': s, 'why': 'empty'}
+    for s in ['h', 'd', 'm', 's', 'D', ' h ', 'dh', 'P', 'PT', ' P ', 'T', 'P T', 'pt', 'PT ', ' PT']:
+        yield {'k': 'bad', 's': s, 'why': 'unit_only'}
+    for a, b in ((0, 0), (1, 2), (10, 59)):
+        for why, strings in (
+                ('iso_ym', [f"P1Y", f"P{a}Y1M", f"P2M", f"P0Y3M{b}D", f"P1Y{a}DT{b}H", f"P1MT{b}M"]),
+                ('sign', [f"-{a}s", f"+{a}m", f"P-{a}D", f"-{a}", f"{a}h-{b}m", f"PT-{b}S"]),
+                ('iso_lower', [f"p{a}d", f"pt{a}s", f"P{a}d", f"PT{a}h", f"Pt{a}S", f"P{a}Dt{b}H"]),
+                ('iso_no_t', [f"P{a}H", f"P{a}S", f"P{a}D{b}H", f"P{a}D{b}S"]),
+                ('two_marks', [f"{a}.{b}.5s", f"{a}..5s", f"{a}.,5", f"{a},{b},1m", f".{a}s", f"{a}.s"]),
+                ('garbage', ['abc', f"{a}x", f"{a}h {b}q", f"{a}hh", f"{a} {b} h x", 'one hour', f"{a}:{b}",
+                             f"{a}h{b}m{a}s{b}ms", f"0x{a}s", f"{a}e3s", f"{a}_000s", 'inf', 'nan', f"{a}w"]),
+                ('iso_ws', [f"P {a}D", f"P{a}D T{b}H", f"P{a} D", f"PT {b}S", f"P{a}DT{b} H"]),
+                ('neg_time', [f"{a}h -{b}m", f"{a}m-1s"])):
+            for text in strings:
+                yield {'k': 'bad', 's': text, 'why': why}
+
+
 def exhaustive(tier):
     if tier != 'thorough':
-        return None
+        return ("the fixed part of the list of malformed duration strings", fixed_bad())
 
     def gen():
+        yield from fixed_bad()
         for n in range(0, 10 ** 6 + 1):
             yield {'k': 'timestr', 'n': n, 'sep': ''}
             yield {'k': 'approx', 'v': [n, 0, 0], 'float': False, 'sep': ''}
-    return ("every integer 0..10^6: convert(timestr(n)) == n and "
+    return ("the fixed part of the list of malformed duration strings; every integer 0..10^6: convert(timestr(n)) == n and "
             "|convert(timestr_approx(n)) - n| < documented step", gen())
 
 
